@@ -1,0 +1,46 @@
+//go:build verif
+
+// Contracts for package catalog, checked by /verif/govc. This file contains no
+// code: with the verif tag off it is not compiled at all, with it on it adds
+// only comments.
+package catalog
+
+/*@
+# decToMinDec: what is handed to Sprintf for "DD-MM.MMMMH" (C20)
+#   $1[0] degrees, $1[1] minutes, $1[2] hemisphere byte
+#   a float64 prints below "60.0000" under %07.4f iff it is <= 59.99995 (the
+#   nearest double lies below the decimal 59.99995 and prints as 59.9999)
+func catalog.decToMinDec(dec, latitude) (r)
+  props C20
+  requires range: !isNaN(dec) && (latitude ==> fplit("-90") <= dec && dec <= fplit("90")) && (!latitude ==> fplit("-180") <= dec && dec <= fplit("180"))
+  call fmt.Sprintf requires format: (latitude ==> $0 == "%02.0f-%07.4f%c") && (!latitude ==> $0 == "%03.0f-%07.4f%c")
+  call fmt.Sprintf requires nargs: len($1) == 3
+  call fmt.Sprintf requires minutes-range: fplit("0") <= unbox($1[1]) && unbox($1[1]) <= fplit("59.99995")
+  call fmt.Sprintf requires degrees-range: fplit("0") <= unbox($1[0]) && (latitude ==> unbox($1[0]) <= fplit("90")) && (!latitude ==> unbox($1[0]) <= fplit("180"))
+  call fmt.Sprintf requires degrees-integral: isIntegral(unbox($1[0]))
+  call fmt.Sprintf requires hemisphere: (latitude && dec > fplit("0") ==> unbox($1[2]) == 'N') && (latitude && dec < fplit("0") ==> unbox($1[2]) == 'S') && (!latitude && dec > fplit("0") ==> unbox($1[2]) == 'E') && (!latitude && dec < fplit("0") ==> unbox($1[2]) == 'W')
+  call fmt.Sprintf requires hemisphere-letter: (latitude ==> unbox($1[2]) == 'N' || unbox($1[2]) == 'S') && (!latitude ==> unbox($1[2]) == 'E' || unbox($1[2]) == 'W')
+  # accuracy: degrees/minutes are the exact float64 evaluation of trunc(|dec|) and (|dec|-trunc|dec|)*60 (one
+  # rounding, error < 1e-13 minutes), except that minutes which would print as 60.0000 carry into the degrees
+  call fmt.Sprintf requires accuracy-nocarry: Minutes(dec) <= fplit("59.99995") ==> same(unbox($1[0]), fabs(trunc(dec))) && same(unbox($1[1]), Minutes(dec))
+  call fmt.Sprintf requires accuracy-carry: Minutes(dec) > fplit("59.99995") ==> same(unbox($1[0]), fabs(trunc(dec)) + fplit("1")) && same(unbox($1[1]), fplit("0"))
+
+pred Minutes(dec) := fabs((dec - trunc(dec)) * fplit("60"))
+
+# NewCourse: three ASCII digits, 360 maps to 000 (C20)
+func catalog.NewCourse(degrees, magnetic) (c, err)
+  props C20
+  call fmt.Sprintf requires format: $0 == "%03d"
+  call fmt.Sprintf requires arg: len($1) == 1 && unbox($1[0]) == ite(degrees == 360, 0, degrees)
+  call fmt.Sprintf assume sprintf-03d: 0 <= unbox($1[0]) && unbox($1[0]) <= 999 ==> Dec3($r0, unbox($1[0]))
+  ensures range-error: (degrees < 0 || degrees > 360) ==> c == nil && err != nil
+  ensures ok: 0 <= degrees && degrees <= 360 ==> c != nil && err == nil
+  ensures digits: c != nil ==> c.Digits[0] == '0' + div(ite(degrees == 360, 0, degrees), 100) && c.Digits[1] == '0' + mod(div(ite(degrees == 360, 0, degrees), 10), 10) && c.Digits[2] == '0' + mod(ite(degrees == 360, 0, degrees), 10)
+  ensures magnetic: c != nil ==> c.Magnetic == magnetic
+
+# Course.String: the three digits followed by M (magnetic) or T (true)
+func catalog.(Course).String(c) (s)
+  props C20
+  call fmt.Sprintf requires format: (c.Magnetic ==> $0 == "%sM") && (!c.Magnetic ==> $0 == "%sT")
+  call fmt.Sprintf requires digits: len($1) == 1 && len(unbox($1[0])) == 3 && unbox($1[0])[0] == c.Digits[0] && unbox($1[0])[1] == c.Digits[1] && unbox($1[0])[2] == c.Digits[2]
+@*/
